@@ -28,10 +28,11 @@ from .events import (
 from .exceptions import (
     ProtocolError, NoSuchStreamError, FlowControlError, FrameTooLargeError,
     TooManyStreamsError, StreamClosedError, StreamIDTooLowError,
-    NoAvailableStreamIDError, RFC1122Error, DenialOfServiceError
+    NoAvailableStreamIDError, RFC1122Error, DenialOfServiceError,
+    InvalidSettingsValueError
 )
 from .frame_buffer import FrameBuffer
-from .settings import Settings, SettingCodes
+from .settings import Settings, SettingCodes, _validate_setting
 from .stream import H2Stream, StreamClosedBy
 from .utilities import SizeLimitDict, guard_increment_window
 from .windows import WindowManager
@@ -1074,6 +1075,20 @@ class H2Connection:
         self.config.logger.debug(
             "Update connection settings to %s", new_settings
         )
+        # Validate every value before applying any of them, so that a call
+        # that raises leaves the settings exactly as they were. Identifiers
+        # and values must also fit their fields in the SETTINGS frame.
+        for setting, value in new_settings.items():
+            invalid = _validate_setting(setting, value)
+            if not invalid and not (
+                    0 <= setting <= 0xFFFF and 0 <= value <= 0xFFFFFFFF):
+                invalid = ErrorCodes.PROTOCOL_ERROR
+            if invalid:
+                raise InvalidSettingsValueError(
+                    "Setting %d has invalid value %d" % (setting, value),
+                    error_code=invalid
+                )
+
         self.state_machine.process_input(ConnectionInputs.SEND_SETTINGS)
         self.local_settings.update(new_settings)
         s = SettingsFrame(0)
